@@ -1,0 +1,34 @@
+//go:build verif
+// +build verif
+
+package server
+
+// Verification hooks for property C21 (add-only, compiled with -tags verif):
+// the prepared statements of the binary protocol with bound parameters, on the
+// in-process session of verif_lex.go.
+
+import (
+	"github.com/XiaoMi/Gaea/mysql"
+	"github.com/XiaoMi/Gaea/util"
+)
+
+// StmtPrepare runs se.handleStmtPrepare(sql) (COM_STMT_PREPARE without writing
+// the response) and returns the id and the number of parameters of the new
+// statement.
+func (v *VerifLexSession) StmtPrepare(sql string) (id uint32, paramCount int, err error) {
+	stmt, err := v.se.handleStmtPrepare(sql)
+	if err != nil {
+		return 0, 0, err
+	}
+	return stmt.id, stmt.paramCount, nil
+}
+
+// StmtExecuteRaw runs se.handleStmtExecute on the given COM_STMT_EXECUTE
+// payload (statement id, flags, iteration count, NULL bitmap, types, values),
+// with the request context ExecuteCommand gives it.
+func (v *VerifLexSession) StmtExecuteRaw(data []byte) error {
+	reqCtx := util.NewRequestContext()
+	reqCtx.SetCmdStmtType(mysql.ComStmtExecute)
+	_, err := v.se.handleStmtExecute(reqCtx, data)
+	return err
+}
